@@ -128,6 +128,16 @@ def _pure_value(node):
     return True
 
 
+class _NotIn(ast.NodeTransformer):
+    """`a not in b` -> `not (a in b)`; `x is None` / `x is not None` stay (not understood: fail closed later)"""
+
+    def visit_Compare(self, n):
+        self.generic_visit(n)
+        if len(n.ops) == 1 and isinstance(n.ops[0], ast.NotIn):
+            return ast.UnaryOp(op=ast.Not(), operand=ast.Compare(left=n.left, ops=[ast.In()], comparators=n.comparators))
+        return n
+
+
 class _Exec:
     def __init__(self):
         self.defs = {}              # inlinable locals: name -> source text of the value
@@ -137,6 +147,7 @@ class _Exec:
 
     def cond(self, test, pname):
         node = _Inline(self.defs).visit(ast.parse(_src(test), mode="eval").body)
+        node = ast.parse(_src(_NotIn().visit(node)), mode="eval").body
         table = dict(OBS)
         names = {"is_stuck", "has_error", "fail_set", "probe_reported", "visited"}
         if pname:
